@@ -87,6 +87,10 @@ def list_patch(rng, cur):
         out = [{"$delete": pat}]
         if rng.chance(1, 8):
             out[0]["extra"] = 1
+        if rng.chance(1, 3):
+            # a $delete entry is one entry among others: what stands before and after it is still applied
+            more = [gen.scalar(rng, PROF_NONULL), {"added": 1}, {"$delete": {"nope": 2}}]
+            out = ([rng.pick(more)] if rng.chance(1, 2) else []) + out + [rng.pick(more) for _ in range(1 + rng.below(2))]
     elif k < 8 and maps:
         e = rng.pick(maps)
         pat = sub_pattern(rng, e)
